@@ -89,6 +89,14 @@ def scenarios():
   S['sibling-containers-in-varargs'] = (
       lambda: fdl.Partial(posonly_target, 1, 2, 3, [[fdl.ArgFactory(Fresh)], [fdl.ArgFactory(Fresh)]]),
       {'args': 'fresh'})
+  # ArgFactories that sit only inside containers passed to another ArgFactory
+  S['factory-in-container-inside-factory'] = (
+      lambda: fdl.Partial(target, a=fdl.ArgFactory(target, a=[fdl.ArgFactory(Fresh), 1],
+                                                   b={'s': (fdl.ArgFactory(Fresh), 0)})),
+      {'a': 'fresh-deep'})
+  S['factory-in-container-inside-positional-factory'] = (
+      lambda: fdl.Partial(target, fdl.ArgFactory(target, [fdl.ArgFactory(Fresh)])),
+      {'a': 'fresh-deep'})
   S['factory-direct'] = (lambda: fdl.Partial(target, a=fdl.ArgFactory(Fresh)), {'a': 'fresh'})
   S['factory-in-list'] = (lambda: fdl.Partial(target, a=[fdl.ArgFactory(Fresh), 1]), {'a': 'fresh'})
   S['factory-in-tuple'] = (lambda: fdl.Partial(target, a=(fdl.ArgFactory(Fresh), 1)), {'a': 'fresh'})
@@ -129,6 +137,25 @@ def check_scenario(name):
           break
       if not all(idsets):
         bad(f'slot {slot}: no fresh object produced')
+    elif mode == 'fresh-deep':
+      # the slot holds the dict returned by `target`; everything reachable in it is fresh per call
+      def deep(x, acc):
+        if isinstance(x, dict):
+          for v in x.values():
+            deep(v, acc)
+        elif isinstance(x, (list, tuple)):
+          for v in x:
+            deep(v, acc)
+        else:
+          acc.append(x)
+        return acc
+      leaves = [deep(v, []) for v in vals]
+      if any(type(l).__name__ in ('_BuiltArgFactory', 'ArgFactory') for ls in leaves for l in ls):
+        bad(f'slot {slot}: an ArgFactory nested in a container inside another ArgFactory was not '
+            f'evaluated (raw factory wrapper passed through)')
+      fr = [[id(l) for l in ls if isinstance(l, Fresh)] for ls in leaves]
+      if not all(fr) or set(fr[0]) & set(fr[1]) or set(fr[1]) & set(fr[2]):
+        bad(f'slot {slot}: nested ArgFactory results were not fresh per call')
     elif mode == 'shared':
       if not (vals[0] is vals[1] is vals[2]):
         bad(f'slot {slot}: a nested Config/Partial was rebuilt per call instead of once at build time')
